@@ -672,8 +672,9 @@ impl BinArchive {
             return Ok(());
         }
         let range = address..self.data.len();
-        self.data.drain(range.clone());
-        for i in range.step_by(4) {
+        let end = range.end;
+        self.data.drain(range);
+        for i in (address..=end).step_by(4) {
             self.text.remove(&i);
             self.labels.remove(&i);
             self.pointers.remove(&i);
